@@ -128,7 +128,7 @@ Proof. exact demo_neutral_ok. Qed.
     within the timeout does not *)
 Example C08_fault_is_failure_nonvacuous :
   forallb (is_fault demo_cfg) [BPlayerRaises; BExtractorRaises; BComparatorRaises; BExits; BHangs; BAnswersLate;
-                               BDrops; BDiesBefore; BSlow 4] = true /\
+                               BDrops; BDiesBefore; BSlow 4; BBadAnswer Unloadable; BBadAnswer Refused] = true /\
   is_fault demo_cfg (BSlow 3) = false /\ is_fault demo_cfg BDifferent = false.
 Proof. repeat split. Qed.
 
@@ -141,3 +141,15 @@ Example C08_fresh_queues_nonvacuous :
   fst (run_dedicated c s) = (map (single c) s, Completed) /\
   map verdict (map (single c) s) = [Equal; EqualizerFailure; Equal; Different; EqualizerFailure; EqualizerFailure; Different].
 Proof. vm_compute. repeat split. Qed.
+
+(** (round 4) answers that reach the parent and cannot be used - the parent's [get] raises while loading the item, or
+    the worker answered (False, message): clean behaviours (covered by [C08_failure_is_local_partial]); each is a
+    framework failure of its own recording only, the neighbours keep their verdicts, and in-process (no queue) the
+    same replays are Equal - so they are not [neutral] *)
+Example C08_bad_answer_demo :
+  clean_script demo_bad /\
+  fst (run_dedicated demo_cfg demo_bad) = (map (single demo_cfg) demo_bad, Completed) /\
+  map (fun v => (verdict v, message v)) (map (single demo_cfg) demo_bad) =
+    [(EqualizerFailure, MUnload); (EqualizerFailure, MRefused); (Equal, MCmp); (EqualizerFailure, MUnload)] /\
+  neutral demo_cfg (BBadAnswer Unloadable) = false.
+Proof. destruct demo_bad_run as (A & B & C & _). repeat split; assumption. Qed.
